@@ -146,4 +146,36 @@ theorem sensStep_dx_el (F : Fns α) (P : Par α) (g : Geo) (x : Nat → α) (rs 
 
 end
 
+theorem foldRange_id {β : Type} (n : Nat) (v : β) : foldRange n (fun v _ => v) v = v := by
+  induction n with
+  | zero => rfl
+  | succ n ih => simp only [foldRange]; exact ih
+
+section
+variable {α : Type} [Add α] [Sub α] [Mul α] [Div α] [Neg α] [OfNat α 0] [OfNat α 1] [OfNat α 2]
+
+/-- one reverse pass leaves `dxprint` of every layer but the supporting one untouched -/
+theorem sensStep_dxprint_other (F : Fns α) (P : Par α) (g : Geo) (x : Nat → α) (rs : State α) (st : SState α)
+    (hd : g.dirLayer < 3) {ind lp l a b : Nat} (hl : l < g.nl) (ha : a < g.n1) (hb : b < g.n2) (hne : l ≠ lp) :
+    vget (sensStep F P g x rs st ind lp).dxprint (g.el l a b) = vget st.dxprint (g.el l a b) := by
+  have hlt := g.el_lt hd hl ha hb
+  simp only [sensStep]
+  rw [vget_vtab_lt _ hlt]
+  rw [foldRange_pointwise (fun i e v =>
+    if g.inLayer lp e = true then
+      if (inRange g.n1 (g.coord g.orth1 e) (-(offA i)) && inRange g.n2 (g.coord g.orth2 e) (-(offB i))) = true then
+        v + vget (vtab g.dom.nel (fun e =>
+            if g.inLayer ind e = true then
+              cOf F P (vget rs.smax e) (dsminDs F P.eps (x e) (vget rs.smax e) (vget st.dxprint e))
+            else 0))
+          (g.el ind (shiftIdx (g.coord g.orth1 e) (-(offA i))) (shiftIdx (g.coord g.orth2 e) (-(offB i)))) *
+          F.pow (vget rs.xprint e + P.shift) (P.p - 1)
+      else v
+    else v)]
+  rw [g.inLayer_el hd hl ha hb]
+  simp only [hne, decide_false, Bool.false_eq_true, if_false]
+  exact foldRange_id _ _
+
+end
+
 end PymotoVerif.Overhang
